@@ -8,7 +8,8 @@ parentheses, comments, continuation inside brackets).  Everything is derived fro
 NAMES = ["a", "b", "c", "x", "y"]
 FUNCS = ["f", "g", "h"]
 ATTRS = ["p", "q"]
-CONSTS = ["0", "1", "2", "10", "'s'", '"t"', "1.5", "True", "None", "b'k'", "2j", "...", "False", "1.0", "0", "1"]
+CONSTS = ["0", "1", "2", "10", "'s'", '"t"', "1.5", "True", "None", "b'k'", "2j", "...", "False", "1.0", "0", "1",
+          "1_000", "2_500.75", "0x_ff", "1e1_0", "0b1_01", "1_0j"]          # PEP 515 spellings
 # string literals spelling ${name} for the wildcard names the pattern generator uses: bound code that looks like a
 # placeholder must arrive verbatim in a restructured module
 TEMPLATE_STRS = ["'${a}'", '"${x}!"', "'${w} ${a}'", "'${n1}'", '"${?v}"', "'${x}'", "'${w}'"]
@@ -215,6 +216,10 @@ class Gen:
                 out.extend(self.run_of_statements())
                 last = None
                 continue
+            if rng.random() < 0.07:
+                out.extend(self.optional_slot_group(in_func))
+                last = None
+                continue
             # repeat the previous simple statement now and then: windows of a statement pattern overlap
             if last is not None and rng.random() < 0.08:
                 out.extend(last)
@@ -229,6 +234,32 @@ class Gen:
                 out.append("")
             if rng.random() < 0.04:
                 out.append("# comment " + rng.choice(NAMES))
+        return out
+
+    def optional_slot_group(self, in_func):
+        """sibling statements of one node class whose optional children are set in different slots
+        (Slice lower/upper/step, Raise exc/cause, Return value, AnnAssign value, Dict ** entries, call ** / *)"""
+        rng = self.rng
+        b, t = rng.choice(NAMES), rng.choice(NAMES)
+        e = lambda: self._paren(self.atom())          # noqa: E731
+        k = rng.random()
+        if k < 0.40:
+            forms = ["%s = %s[:%s]", "%s = %s[%s:]", "%s = %s[::%s]"]
+            out = [f % (t, b, e()) for f in forms]
+            if rng.random() < 0.5:
+                out.append("%s = %s[%s:%s]" % (t, b, e(), e()))
+            if rng.random() < 0.5:
+                out.append("%s = %s[%s::%s]" % (t, b, e(), e()))
+        elif k < 0.55:
+            out = ["raise E(%s)" % e(), "raise E(%s) from %s" % (e(), rng.choice(NAMES))]
+        elif k < 0.70:
+            out = ["%s: int" % t, "%s: int = %s" % (t, e()), "%s: %s" % (t, e())]
+        elif k < 0.85:
+            out = ["%s = {**%s, %s: 1}" % (t, b, e()), "%s = {%s: 1, **%s}" % (t, e(), b), "%s = {%s: 1, %s: 1}" % (t, e(), e())]
+        else:
+            out = ["%s(*%s, **%s)" % (rng.choice(FUNCS), b, t), "%s(%s, **%s)" % (rng.choice(FUNCS), e(), t),
+                   "%s(*%s, k=%s)" % (rng.choice(FUNCS), b, e())]
+        rng.shuffle(out)
         return out
 
     def run_of_statements(self):
